@@ -660,3 +660,5 @@ MUTANTS = [
             return cls(*data[2:])""", 'C04-R4'),
     ('target-miu-forgets-did', D, "self.miu = atr_req.lr - 3 - int(atr_req.did > 0)", "self.miu = atr_req.lr - 3", 'C04-R3'),
 ]
+
+EXPLANATION += ' Round 5: ContactlessFrontend.exchange hands a frame to the driver once on every path; the Initiator answers a timeout with ATN, never with NACK.'
